@@ -279,6 +279,14 @@ def run(ctx):
         ctx.check(not bad5 and n_fallback >= 2, "R08.5", "%s|fallback-acts-as-put" % f.name,
                   "when nothing was updated the upsert queues exactly one Put (PutWithTTL iff a ttl was given) carrying the request's key, value, weight and ttl, and touches nothing else (%d fallback paths)" % n_fallback, f.where(),
                   "; ".join("%s via %s" % (w, q[:10]) for w, q in bad5[:3]))
+    # ---- R08.8 the index operations the upsert relies on do what their classification requires (shared with C10 R10.1)
+    import c10
+    sub = type(ctx)(ctx.prop, ctx.facts, ctx.tier, ctx.config)
+    c10.run(sub)
+    for o in sub.obligations:
+        if o["rule"] == "R10.1" and any(x in o["key"] for x in ("move-old-to-new", "insert-under-own-expiry", "shard-from-expiry")):
+            ctx._add(o["status"], "R08.8", o["key"].split("|", 1)[1], o["desc"] + " [the upsert's TTL change is only effective if the expiry index follows it]", o["where"], o["detail"])
+
     # ---- R08.4: explicit weight first; derived weight uses the ttl flag --------------------------------------
     for n, g in F.fns.items():
         if n.endswith("::updated_weight") and g.kind != "Closure":
